@@ -11,6 +11,14 @@ import PetgraphModel.Proofs.C20W2Fas
 import PetgraphModel.Proofs.C20W2Dsatur
 import PetgraphModel.Proofs.C20W2Tred
 import PetgraphModel.Proofs.C20W2Paths
+import PetgraphModel.Proofs.C20W3Tred
+import PetgraphModel.Proofs.C20W3TredNodup
+import PetgraphModel.Proofs.C20W3Cliques
+import PetgraphModel.Proofs.C20W3Dsatur
+import PetgraphModel.Proofs.C20W3DsaturLag
+import PetgraphModel.Proofs.C20W3Oracles
+import PetgraphModel.Proofs.C20W3PathsTotal
+import PetgraphModel.Proofs.C20W3PathsCycle
 /-
 C20 — cliques, colouring, feedback arcs, reduction/closure, simple paths, Steiner tree, PageRank.
 
@@ -25,6 +33,20 @@ Two kinds of theorems:
   to /repo exactly: the feedback-arc argument for ANY node sequence, correctness of the mirrored
   `greedy_feedback_arc_set` for every input, and the rational PageRank model (non-negative, sums to
   1, equivariant under relabelling).
+
+What is proved about the ALGORITHM (a mirror model), per function (wave 3 closed the gaps an
+independent audit listed; section "wave 3" at the end of this file):
+
+| function                                   | theorem about the algorithm                                        |
+|--------------------------------------------|--------------------------------------------------------------------|
+| greedy_feedback_arc_set                    | `C20_fas_model_correct`, `C20_fas_total`                           |
+| dsatur_coloring                            | `C20_dsatur_heap_model` (the heap with lazy deletion, any tie-breaking); `C20_dsatur_any_order` / `C20_dsatur_bipartite` are about a caller-supplied pop order |
+| dag_to_toposorted_adjacency_list           | `C20_tred_toposorted` (rows), `C20_tred_revmap` (revmap)           |
+| dag_transitive_reduction_closure           | `C20_tred_model_correct`; composed: `C20_tred_end_to_end`          |
+| maximal_cliques                            | `C20_cliques_model_exact` (Bron–Kerbosch with pivoting, any pivot in P ∪ X, any exploration order) |
+| all_simple_paths                           | `C20_paths_model_exact` (from ≠ to), `C20_paths_from_eq_to`, `C20_paths_model_total` |
+| steiner_tree                               | NONE — judge only (`C20_steiner_judge_sound`); finding D21 is open |
+| page_rank                                  | `C20_pagerank_sum`, `C20_pagerank_equivariant`, `C20_pagerank_defined` (exact rationals) |
 -/
 namespace PetgraphModel.C20T
 open PetgraphModel PetgraphModel.MGraph PetgraphModel.C20
@@ -103,7 +125,8 @@ theorem C20_dsatur_judge_sound (g : MGraph) (col : List (Nat × Nat)) (k : Nat)
 theorem C20_bipartite_search_complete (g : MGraph) (hg : EndpointsOk g) (hb : Bipartite g) :
     bipartiteB g = true := bipartiteB_complete g hg hb
 
-/-- **DSatur for ANY pop order of the heap** (the model abstracts `BinaryHeap` tie-breaking away):
+/-- **DSatur for ANY pop order of the heap** (the pop order is SUPPLIED BY THE CALLER here; that the real
+mechanism — heap with lazy deletion — produces such an order is `C20_dsatur_heap_model`, wave 3):
 colouring the nodes one by one in an arbitrary duplicate-free order, each with the least colour not
 used by an already coloured neighbour, colours every node of the order exactly once, gives adjacent
 nodes different colours, and uses exactly the colours `0 .. count-1` (`count` = `max_color + 1`). -/
@@ -125,7 +148,8 @@ def C20_dsatur_bipartite_statement : Prop :=
        (Dsatur.adjColours g (Dsatur.greedy g (order.take i)) order[i]).eraseDups.length)) →
     Dsatur.count (Dsatur.greedy g order) ≤ 2
 
-/-- **DSatur is exact on bipartite graphs, whatever the heap's tie-breaking** (wave 2): with ANY pop
+/-- **DSatur is exact on bipartite graphs, whatever the heap's tie-breaking** (wave 2; the order is a
+hypothesis here — `C20_dsatur_heap_model` shows that the heap produces an order satisfying it): with ANY pop
 order that respects the saturation rule (the picked node has the most distinct neighbour colours among
 the nodes still to come) a bipartite graph gets at most two colours.  The order need not even cover all
 nodes.  Proof (`Proofs/C20W2Dsatur.lean`): the colouring always equals the bipartition up to a swap bit
@@ -217,7 +241,7 @@ theorem C20_tred_toposorted_partial :
 
 /-! ## (4) maximal_cliques -/
 
-/-- soundness of the judge: written in the order of the node list, the returned sets are pairwise
+/-- (about the JUDGE; the algorithm is `C20_cliques_model_exact`, wave 3) soundness of the judge: written in the order of the node list, the returned sets are pairwise
 different and are EXACTLY the maximal cliques: for every sublist `S` of the node list (= every set of
 nodes), `S` is returned iff it is a maximal clique. -/
 theorem C20_cliques_judge_sound (g : MGraph) (out : List (List Nat)) (h : judgeCliques g out = none) :
@@ -284,23 +308,30 @@ theorem C20_paths_model_complete_partial :
     Paths.allSimplePaths (MGraph.succ ⟨true, [0, 1, 2], [⟨0, 0, 1, 1⟩, ⟨1, 1, 2, 1⟩, ⟨2, 0, 2, 1⟩]⟩) 3 0 2 0 none 100
       = some [[0, 1, 2], [0, 2]] := by decide
 
-/-! ## (6) steiner_tree -/
+/-! ## (6) steiner_tree
 
-/-- soundness of the judge: an accepted result is a subgraph of `g` that contains every terminal, is
+JUDGE ONLY.  There is no mirror model of `steiner_tree` and therefore NO theorem about the algorithm in
+this file: the three theorems below are about the judge that `./check C20` runs on the implementation's
+answers (accepted ⇒ the specification holds) and about the classifier of the OPEN finding D21 (the
+unchanged crate can return a subgraph with a cycle when expanded shortest paths tie, so "the result is
+a tree" is false for the algorithm as it stands; `C20_steiner_D21_counterexample` is its recorded
+witness).  What the property claims about `steiner_tree` is therefore established per run only. -/
+
+/-- (about the JUDGE, not the algorithm) soundness of the judge: an accepted result is a subgraph of `g` that contains every terminal, is
 connected with exactly `|V| - 1` edges (a tree), has only terminals as leaves, and weighs at most
 twice ANY edge set of `g` that connects the terminals (hence at most twice the optimum). -/
 theorem C20_steiner_judge_sound (g : MGraph) (terms N E : List Nat)
     (h : judgeSteiner g terms N E = SteinerVerdict.ok) : SteinerOk g terms N E :=
   judgeSteiner_sound g terms N E h
 
-/-- the classifier of the open finding D21 fires only when every clause except tree-ness holds and
+/-- (about the JUDGE, not the algorithm) the classifier of the open finding D21 fires only when every clause except tree-ness holds and
 the (connected, non-empty) result has at least as many edges as nodes, i.e. contains a cycle. -/
 theorem C20_steiner_D21_classifier (g : MGraph) (terms N E : List Nat) (why : String)
     (h : judgeSteiner g terms N E = SteinerVerdict.cycleOnly why) :
     firstFail (steinerClauses g terms N E) = none ∧ N ≠ [] ∧ N.length ≤ (resultEdges g E).length :=
   judgeSteiner_cycleOnly g terms N E why h
 
-/-- D21 on its recorded witness: the 6-node graph of DESIGN §5 with terminals 2,3,5,4 — the result
+/-- (about the JUDGE on a recorded answer of the implementation; D21 is OPEN) D21 on its recorded witness: the 6-node graph of DESIGN §5 with terminals 2,3,5,4 — the result
 nodes {1,2,3,4,5} with the five edges 1-2, 1-3, 1-4, 1-5, 3-5 (one of the outcomes the unchanged
 crate produces) satisfies every clause except tree-ness. -/
 theorem C20_steiner_D21_counterexample :
@@ -334,5 +365,188 @@ iterations — so D22 is confined to `d = 0`. -/
 theorem C20_pagerank_defined (g : MGraph) (hne : g.nodes ≠ []) (hnd : g.nodes.Nodup)
     (hg : ∀ e ∈ g.edges, e.src ∈ g.nodes ∧ e.tgt ∈ g.nodes) (d : Rat) (h0 : 0 < d) (h1 : d ≤ 1) (k : Nat) :
     (PR.pageRank g d k).isSome := PR.pageRank_defined g hne hnd hg h0 h1 k
+
+/-! ## wave 3 — theorems about the ALGORITHMS that had only judge theorems
+
+An independent audit found that `maximal_cliques`, `dsatur_coloring` (its heap) and the composition
+`dag_to_toposorted_adjacency_list` ∘ `dag_transitive_reduction_closure` had no theorem about the
+algorithm itself, and that the `all_simple_paths` model lacked totality and the `from = to` case. -/
+
+/-! ### (4') maximal_cliques: Bron–Kerbosch with pivoting -/
+
+/-- **the mirrored `bron_kerbosch_pivot` returns EXACTLY the maximal cliques, each once — for every
+pivot choice and every exploration order** (`Model/C20Cliques.lean`; the real code takes both from
+`HashSet` iteration, the model from an arbitrary `Oracle`: any pivot in `P ∪ X`, any permutation of
+`todo`).  On a graph with symmetric adjacency (every undirected graph) and a duplicate-free node list;
+self-loops are allowed.  Same conclusion as the judge's (`C20_cliques_judge_sound`): written in the
+order of the node list the returned sets are pairwise different, and a set of nodes is returned iff it
+is a maximal clique.  The fuel bounds the recursion depth only; any value above the node count gives
+this same answer.  Proof (`Proofs/C20W3Cliques.lean`): the standard invariant — `R` is a clique,
+`P ∪ X` = the common neighbours of `R`, and a call reports every maximal clique between `R` and
+`R ∪ P` exactly once. -/
+theorem C20_cliques_model_exact (g : MGraph) (hsym : ∀ a b, g.Adj a b → g.Adj b a) (hnd : g.nodes.Nodup)
+    (o : Cliques.Oracle) (ho : o.Valid) (fuel : Nat) (hf : g.nodes.length < fuel) :
+    (∀ c ∈ Cliques.maximalCliques g o fuel, c.Nodup ∧ ∀ x ∈ c, x ∈ g.nodes) ∧
+    ((Cliques.maximalCliques g o fuel).map (canon g)).Nodup ∧
+    ∀ S, S.Sublist g.nodes → (S ∈ (Cliques.maximalCliques g o fuel).map (canon g) ↔ IsMaxClique g S) :=
+  Cliques.maximalCliques_exact g hsym hnd o ho fuel hf
+
+/-- the same for an undirected graph (its adjacency is symmetric) -/
+theorem C20_cliques_model_exact_undirected (g : MGraph) (hd : g.directed = false) (hnd : g.nodes.Nodup)
+    (o : Cliques.Oracle) (ho : o.Valid) (fuel : Nat) (hf : g.nodes.length < fuel) :
+    (∀ c ∈ Cliques.maximalCliques g o fuel, c.Nodup ∧ ∀ x ∈ c, x ∈ g.nodes) ∧
+    ((Cliques.maximalCliques g o fuel).map (canon g)).Nodup ∧
+    ∀ S, S.Sublist g.nodes → (S ∈ (Cliques.maximalCliques g o fuel).map (canon g) ↔ IsMaxClique g S) :=
+  Cliques.maximalCliques_exact g (fun _ _ h => adj_symm_undirected hd h) hnd o ho fuel hf
+
+/-- the model's answer passes the judge (the judge's clauses are decidable versions of the above) on
+the example of the crate's documentation, for the run that takes the first vertex of maximal degree -/
+example : judgeCliques ⟨false, [0, 1, 2, 3, 4], [⟨0, 0, 1, 1⟩, ⟨1, 0, 2, 1⟩, ⟨2, 1, 2, 1⟩, ⟨3, 2, 3, 1⟩]⟩
+    (Cliques.maximalCliques ⟨false, [0, 1, 2, 3, 4], [⟨0, 0, 1, 1⟩, ⟨1, 0, 2, 1⟩, ⟨2, 1, 2, 1⟩, ⟨3, 2, 3, 1⟩]⟩
+      (Cliques.firstOracle ⟨false, [0, 1, 2, 3, 4], [⟨0, 0, 1, 1⟩, ⟨1, 0, 2, 1⟩, ⟨2, 1, 2, 1⟩, ⟨3, 2, 3, 1⟩]⟩) 6) = none := by
+  decide
+
+/-- the oracle hypothesis of `C20_cliques_model_exact` is satisfiable: the run that takes the first
+vertex of maximal degree of `P` as the pivot (the real code's choice up to the hash order) is valid -/
+theorem C20_cliques_oracle_exists (g : MGraph) : (Cliques.firstOracle g).Valid := Cliques.firstOracle_valid g
+
+/-! ### (2') dsatur_coloring: the heap with lazy deletion -/
+
+/-- **the real mechanism of `dsatur_coloring`, for every tie-breaking of the heap**
+(`Model/C20DsaturHeap.lean`: a max-heap of `(saturation, degree, node)` entries, stale entries skipped
+through `seen`, `pop` = SOME entry of maximal score).  On an undirected graph without dangling edges,
+with the explicit fuel `DsaturHeap.fuelBound g` (= number of entries ever pushed + 1; it is tight) the
+run finishes and there is a pop order `order` — the nodes in the order in which they were popped
+unseen — such that
+* `order` is duplicate-free and lists exactly the nodes: every node is coloured exactly once;
+* the returned colouring IS `Dsatur.greedy g order`, the returned count is `Dsatur.count` of it — so
+  `C20_dsatur_any_order` applies: proper, colours exactly `0..k−1` (`ColouringOk`, the judge's clauses);
+* the order RESPECTS THE SATURATION RULE (`DsaturHeap.SatRespecting`, verbatim the hypothesis of
+  `C20_dsatur_bipartite`): each node is popped while no unseen node has more distinct neighbour colours
+  (CURRENT saturation, not the stale key);
+* hence `k ≤ 2` on every bipartite graph.
+Proof (`Proofs/C20W3Dsatur*.lean`): heap invariant — every entry understates the current saturation of
+its node, and every unseen node has an entry with its current saturation (the colour is inserted
+BEFORE the neighbour is queued); potential `|heap| + Σ_{unseen} degree` drops by 1 per iteration. -/
+theorem C20_dsatur_heap_model (g : MGraph) (hd : g.directed = false) (hg : EndpointsOk g) (hnd : g.nodes.Nodup)
+    (o : DsaturHeap.Oracle) (ho : o.Valid) (fuel : Nat) (hf : DsaturHeap.fuelBound g ≤ fuel) :
+    ∃ col k order, DsaturHeap.dsatur g o fuel = some (col, k) ∧
+      order.Nodup ∧ (∀ x, x ∈ order ↔ x ∈ g.nodes) ∧
+      col = Dsatur.greedy g order ∧ k = Dsatur.count col ∧ DsaturHeap.SatRespecting g order ∧
+      (g.nodes ≠ [] → ColouringOk g col k) ∧ (Bipartite g → k ≤ 2) :=
+  DsaturHeap.dsatur_heap_model g hd hg hnd o ho fuel hf
+
+/-- the part of the above that does not mention the pop order: what `dsatur_coloring` returns passes
+every clause of the judge, whatever the heap does with ties -/
+theorem C20_dsatur_heap_model_ok (g : MGraph) (hd : g.directed = false) (hg : EndpointsOk g) (hnd : g.nodes.Nodup)
+    (hne : g.nodes ≠ []) (o : DsaturHeap.Oracle) (ho : o.Valid) :
+    ∃ col k, DsaturHeap.dsatur g o (DsaturHeap.fuelBound g) = some (col, k) ∧
+      ColouringOk g col k ∧ (Bipartite g → k ≤ 2) := by
+  obtain ⟨col, k, _, h1, _, _, _, _, _, h2, h3⟩ :=
+    DsaturHeap.dsatur_heap_model g hd hg hnd o ho _ (Nat.le_refl _)
+  exact ⟨col, k, h1, h2 hne, h3⟩
+
+/-- the oracle hypothesis is satisfiable: "the first entry of maximal score" and "the last entry of
+maximal score" are valid heaps -/
+theorem C20_dsatur_oracle_exists : DsaturHeap.firstMax.Valid ∧ DsaturHeap.lastMax.Valid :=
+  ⟨DsaturHeap.firstMax_valid, DsaturHeap.lastMax_valid⟩
+
+/-- **the saturation clause is sensitive to the seeded change** `C20-dsatur-saturation-lags` (queue the
+neighbour BEFORE inserting the colour): the model with those two lines swapped
+(`DsaturHeap.dsaturLag`) uses 3 colours on a tree (the double broom of the seeded change's demo) for
+both shipped heaps, the model as it mirrors the real code uses 2 — so `C20_dsatur_heap_model` could not
+be proved of the swapped code. -/
+theorem C20_dsatur_lag_sanity :
+    ((DsaturHeap.dsaturLag DsaturHeap.doubleBroom DsaturHeap.firstMax (DsaturHeap.fuelBound DsaturHeap.doubleBroom)).map (·.2) = some 3) ∧
+    ((DsaturHeap.dsaturLag DsaturHeap.doubleBroom DsaturHeap.lastMax (DsaturHeap.fuelBound DsaturHeap.doubleBroom)).map (·.2) = some 3) ∧
+    ((DsaturHeap.dsatur DsaturHeap.doubleBroom DsaturHeap.firstMax (DsaturHeap.fuelBound DsaturHeap.doubleBroom)).map (·.2) = some 2) ∧
+    ((DsaturHeap.dsatur DsaturHeap.doubleBroom DsaturHeap.lastMax (DsaturHeap.fuelBound DsaturHeap.doubleBroom)).map (·.2) = some 2) :=
+  DsaturHeap.lag_uses_three_colours
+
+/-! ### (3') tred: the `revmap` clause and the composition -/
+
+/-- **the `revmap` clause of `dag_to_toposorted_adjacency_list`** (the third clause of
+`C20_tred_toposorted_statement`'s docstring, so far judged per run only): under the hypotheses of
+`C20_tred_toposorted` (collected in `Tred.DagInput`) the returned `revmap` has `node_bound()` entries,
+sends every node to its rank in the toposort, and the toposort inverts it both ways. -/
+theorem C20_tred_revmap (v : View) (topo : List Nat) (h : Tred.DagInput v topo) :
+    let revmap := (Tred.toposorted v.pred id v.g.nodes.length topo).2
+    revmap.length = v.g.nodes.length ∧
+    (∀ x ∈ v.g.nodes, revmap.getD x 0 = topo.idxOf x ∧ unrank topo (revmap.getD x 0) = x) ∧
+    (∀ i, i < topo.length → revmap.getD (unrank topo i) 0 = i) :=
+  Tred.toposorted_revmap v topo h
+
+/-- **end to end**: for a DAG view (directed, `Incoming` iteration describing the abstract graph, a
+toposort of its nodes handed in, ids below `node_bound()`, no dangling edges),
+`dag_to_toposorted_adjacency_list` followed by `dag_transitive_reduction_closure`, mapped back through
+the `revmap` the first function returned, IS the abstract graph's `Reach1` (closure) and covering
+relation (reduction): `w` is listed in the closure row of `u` iff `u` reaches `w` by ≥ 1 edge, in the
+reduction row iff moreover no node lies strictly between. -/
+theorem C20_tred_end_to_end (v : View) (topo : List Nat) (h : Tred.DagInput v topo) :
+    let tr := Tred.toposorted v.pred id v.g.nodes.length topo
+    let rc := Tred.reductionClosure tr.1
+    (∀ u w, Reach1 v.g u w ↔
+      u ∈ v.g.nodes ∧ w ∈ v.g.nodes ∧ tr.2.getD w 0 ∈ rc.2.getD (tr.2.getD u 0) []) ∧
+    (∀ u w, Covers v.g u w ↔
+      u ∈ v.g.nodes ∧ w ∈ v.g.nodes ∧ tr.2.getD w 0 ∈ rc.1.getD (tr.2.getD u 0) []) :=
+  Tred.end_to_end_revmap v topo h
+
+/-- end to end in the judge's vocabulary: the answer of the two mirrored functions run one after the
+other (`Tred.modelAnswer`: the model's rows with their indices, in the judge's `TredAnswer` format) satisfies exactly what
+`C20_tred_judge_sound` concludes for an accepted answer of the implementation — `revmap` inverse to the
+toposort; closure pairs = `Reach1`; reduction pairs = the covering relation; each pair once on a
+simple DAG. -/
+theorem C20_tred_end_to_end_pairs (v : View) (topo : List Nat) (h : Tred.DagInput v topo) :
+    (∀ x ∈ v.g.nodes, colourOf (Tred.modelAnswer v topo).revmap x = some (topo.idxOf x)) ∧
+    (∀ u w, (u, w) ∈ cloPairs topo (Tred.modelAnswer v topo) ↔ Reach1 v.g u w) ∧
+    (∀ u w, (u, w) ∈ redPairs topo (Tred.modelAnswer v topo) ↔ Covers v.g u w) ∧
+    (simpleB v.g = true →
+      (cloPairs topo (Tred.modelAnswer v topo)).Nodup ∧ (redPairs topo (Tred.modelAnswer v topo)).Nodup) :=
+  ⟨(Tred.end_to_end_pairs v topo h).1, (Tred.end_to_end_pairs v topo h).2.1, (Tred.end_to_end_pairs v topo h).2.2,
+    Tred.end_to_end_nodup v topo h⟩
+
+/-! ### (5') all_simple_paths: totality and `from = to` -/
+
+/-- **the mirrored iterator is total**: the explicit fuel `Paths.fuelBound g`
+(`E · W(n−1) + 2` with `W(0) = 1`, `W(m+1) = 2 + E · W(m)`, `E` = number of edges, `n` = number of
+nodes) suffices for the run to exhaustion — for every `from` among the nodes, every `to` (also
+`to = from`, also a `to` that is not a node), all bounds, any `count`.  So the hypotheses
+`… = some out` of `C20_paths_model_exact` and `C20_paths_from_eq_to` are satisfiable for every input.
+Proof (`Proofs/C20W3PathsTotal.lean`): the potential `Σ levels (|children| · W(unvisited) + 1)` drops in
+every step of `next`. -/
+theorem C20_paths_model_total (g : MGraph) (hg : EndpointsOk g) (count a b lo : Nat) (hi : Option Nat)
+    (ha : a ∈ g.nodes) (fuel : Nat) (hf : Paths.fuelBound g ≤ fuel) :
+    (Paths.allSimplePaths g.succ count a b lo hi fuel).isSome :=
+  Paths.allSimplePaths_total_gen g hg count a b lo hi ha fuel hf
+
+/-- **what the code yields for `from = to = a`** (the case `C20_paths_model_exact` and the judge
+exclude): `child == to` is tested before the visited test, so the iterator yields EXACTLY the simple
+cycles through `a`, written `a, mid…, a` with `a :: mid` duplicate-free (a self-loop gives `[a, a]`),
+with `lo ≤ |mid| ≤ hi`, each once on a simple graph.  WITHOUT an upper bound the depth limit
+`node_count() − 1` allows at most `n − 2` intermediate nodes, so a Hamiltonian cycle (`n − 1`
+intermediate nodes) is never yielded — e.g. nothing at all on a directed triangle — while `[a, a]` is
+yielded even for `n = 1` (`Paths.IsSimpleCycleIn`: `|mid| + 2 ≤ max n 2`). -/
+theorem C20_paths_from_eq_to (g : MGraph) (a lo : Nat) (hi : Option Nat) (fuel : Nat) (out : List (List Nat))
+    (hd : g.directed = true) (hg : EndpointsOk g) (ha : a ∈ g.nodes)
+    (h : Paths.allSimplePaths g.succ g.nodes.length a a lo hi fuel = some out) :
+    (∀ p, p ∈ out ↔ Paths.IsSimpleCycleIn g a lo hi p) ∧ (simpleB g = true → out.Nodup) :=
+  Paths.allSimplePaths_cycle_exact g a lo hi fuel out hd hg ha h
+
+/-- the statement of the `from = to` case, kept as a `Prop` next to its proof for the record -/
+def C20_paths_from_eq_to_statement : Prop :=
+  ∀ (g : MGraph) (a lo : Nat) (hi : Option Nat) (fuel : Nat) (out : List (List Nat)),
+    g.directed = true → EndpointsOk g → a ∈ g.nodes →
+    Paths.allSimplePaths g.succ g.nodes.length a a lo hi fuel = some out →
+    (∀ p, p ∈ out ↔ Paths.IsSimpleCycleIn g a lo hi p) ∧ (simpleB g = true → out.Nodup)
+
+theorem C20_paths_from_eq_to_holds : C20_paths_from_eq_to_statement :=
+  fun g a lo hi fuel out hd hg ha h => C20_paths_from_eq_to g a lo hi fuel out hd hg ha h
+
+/-- the directed triangle: with no upper bound nothing is yielded for `from = to` (the only cycle is
+Hamiltonian); with an isolated fourth node it is -/
+example : Paths.allSimplePaths (MGraph.succ ⟨true, [0, 1, 2], [⟨0, 0, 1, 1⟩, ⟨1, 1, 2, 1⟩, ⟨2, 2, 0, 1⟩]⟩) 3 0 0 0 none 100
+    = some [] := by decide
+example : Paths.allSimplePaths (MGraph.succ ⟨true, [0, 1, 2, 3], [⟨0, 0, 1, 1⟩, ⟨1, 1, 2, 1⟩, ⟨2, 2, 0, 1⟩]⟩) 4 0 0 0 none 100
+    = some [[0, 1, 2, 0]] := by decide
 
 end PetgraphModel.C20T
